@@ -56,15 +56,18 @@ ObsCase(j) ==
    proof |-> j.proof, snd |-> j.snd, rk |-> j.rk]
 \* the observed result of one encoding, in the shape of CodecRoundTrip!Dec
 ObsRes(o) == IF o.res = "ok" THEN [res |-> "ok", slate |-> ObsSlate(o.dec), sender |-> o.sender = "same"]
-             ELSE [res |-> o.res, slate |-> <<>>, sender |-> FALSE]
+             ELSE [res |-> o.res, slate |-> NoSlate, sender |-> FALSE]
 
 \* ----------------------------------------------------------- slate lines
+\* a changed material hash is a class of its own unless a field that carries material (keys, commitments,
+\* proofs, signatures, offset) already differs in the abstract
+CarriesMaterial == {"sigs", "sigs[n>255]", "coms", "proof", "off"}
+WithMaterial(diff, hashdiffers) == diff \cup (IF hashdiffers /\ diff \cap CarriesMaterial = {} THEN {"material"} ELSE {})
 \* everything that makes the decoded slate differ from the original, as finding-key fragments
 ObsDiff(x, e, s0, env) ==
   LET o == x.enc[e] IN
   IF o.res # "ok" THEN {"res:" \o o.res}
-  ELSE DiffSet(s0, ObsSlate(o.dec))
-       \cup (IF o.h # x.h0 THEN {"material"} ELSE {})
+  ELSE WithMaterial(DiffSet(s0, ObsSlate(o.dec)), o.h # x.h0)
        \cup (IF IsPack(e) /\ ((o.sender = "same") # env.snd \/ o.sender = "diff") THEN {"sender"} ELSE {})
 \* the differences a slatepack encoding inherits from the binary slate it carries
 ObsInherited(x, e, s0, env, diff) ==
@@ -81,14 +84,13 @@ JudgeSlate(x) ==
   /\ \A e \in Encodings :
        LET diff == ObsDiff(x, e, s0, env) IN
        CheckP(InScope(s0) => (/\ RoundTripRes(r(e), s0, env, e)
-                              /\ x.enc[e].h = x.h0
-                              /\ (IsPack(e) => x.enc[e].sender # "diff")),
+                              /\ (r(e).res = "ok" => (x.enc[e].h = x.h0 /\ (IsPack(e) => x.enc[e].sender # "diff")))),
               x, "RoundTrip", e, ObsInherited(x, e, s0, env, diff), diff, x["in"])
   \* ---- Layer P: CrossEqual(s): every decoding equals the decoding of the JSON form
   /\ \A e \in Encodings \ {"json"} :
        LET ok == r(e).res = "ok" /\ r("json").res = "ok"
            xd(f) == IF r(f).res = "ok" /\ r("json").res = "ok"
-                    THEN DiffSet(r("json").slate, r(f).slate) \cup (IF x.enc[f].h # x.enc.json.h THEN {"material"} ELSE {})
+                    THEN WithMaterial(DiffSet(r("json").slate, r(f).slate), x.enc[f].h # x.enc.json.h)
                     ELSE {} IN
        CheckP((InScope(s0) /\ ok) => (SlateEq(r(e).slate, r("json").slate) /\ x.enc[e].h = x.enc.json.h),
               x, "CrossEqual", "json~" \o e, IF e = "bin" THEN {} ELSE xd(e) \cap xd("bin"), xd(e), x["in"])
@@ -108,8 +110,8 @@ JudgeSlate(x) ==
                 /\ \A i \in DOMAIN w.comkeys : ToSet(w.comkeys[i]) = JsonComKeys(v0.coms.items[i]),
                 x, "json", "JsonComKeys", w.comkeys)
      /\ CheckMM(ToSet(w.proofkeys) = JsonProofKeys(v0.proof), x, "json", "JsonProofKeys", w.proofkeys)
-  /\ CheckMM(x.enc.bin.wire.len = BinLen(v0), x, "bin", "BinLen", [exp |-> BinLen(v0), obs |-> x.enc.bin.wire.len])
-  /\ \A e \in Encodings \ {"json", "bin"} :
+  /\ CheckMM(Has(x.enc.bin, "wire") => x.enc.bin.wire.len = BinLen(v0), x, "bin", "BinLen", [exp |-> BinLen(v0), obs |-> x.enc.bin])
+  /\ \A e \in {f \in Encodings \ {"json", "bin"} : Has(x.enc[f], "wire")} :
        LET w == x.enc[e].wire  p == Pack(v0, env, IsEnc(e)) IN
        /\ CheckMM(w.mode = p.mode /\ w.clearsender = p.sender, x, e, "Pack:header",
                   [expmode |-> p.mode, obsmode |-> w.mode, expsender |-> p.sender, obssender |-> w.clearsender])
